@@ -29,7 +29,21 @@ func VerifH_IdInjective() {
 	verifrt.Assert("C09.id.http-injective", (hm1 == hm2 && p1 == p2) || x.String() != y.String())
 	// protocols never collide
 	verifrt.Assert("C09.id.cross-protocol", x.String() != a.String())
-	// MarshalText is the same text
+}
+
+// VerifH_IdKeyText (C09, "every interaction's key equals its id"): the key of an
+// interaction in the JSON document is MarshalText of its id, the id field is
+// String(): for every method name / path (N arbitrary bytes each, including bytes
+// that are not valid UTF-8) the two are the same bytes.
+func VerifH_IdKeyText() {
+	n := verifrt.Bound("N")
+	m := verifrt.String("m", verifrt.Choice("lm", n)+1)
+	p := "/" + verifrt.String("p", verifrt.Choice("lp", n+1))
+	a := JsonRpcInteractionId{protocol: JsonRpc, path: Path(p), method: m}
 	t, err := a.MarshalText()
-	verifrt.Assert("C09.id.marshaltext", err == nil && string(t) == a.String())
+	verifrt.Assert("C09.id.key-is-id-text", err == nil && string(t) == a.String())
+	x := HTTPInteractionID{protocol: HTTP, path: Path(p), method: HTTPMethod(verifrt.Choice("hm", 5))}
+	u, err := x.MarshalText()
+	verifrt.Assert("C09.id.key-is-id-text", err == nil && string(u) == x.String())
+	verifrt.Reach("C09.id.key", true)
 }
